@@ -203,7 +203,7 @@ def run(ctx):
     cfg = tlc.write_cfg(os.path.join(ctx.scratch, "script.cfg"), init="ScriptInit", next="ScriptNext", constants=sconsts,
                         invariants=INVARIANTS, deadlock=False)
     sts = []
-    BATCH = 750          # TLC re-reads the script file for every state: keep the files small
+    BATCH = 1500         # TLC re-reads the script file for every initial state: keep the files small
     for b0 in range(0, n_scripts, BATCH):
         sf = os.path.join(ctx.scratch, "scripts_%d.json" % b0)
         with open(sf, "w") as f:
